@@ -13,8 +13,9 @@ from .tlc import run_tlc, wrapper
 
 LAYOUTS = [("onefile", "ungrouped"), ("onefile", "grouped"), ("proc", "ungrouped"), ("proc", "grouped")]
 COMPONENTS = {"alpha": ["alp"], "betaup3": ["betax", "betay", "betaz"], "betax": ["betax"], "betay": ["betay"],
-              "betaz": ["betaz"], "rho0": ["rho"]}
-AUREL_OF = {"alp": "alpha", "rho": "rho0"}
+              "betaz": ["betaz"], "rho0": ["rho"], "velup3": ["vel[0]", "vel[1]", "vel[2]"], "velx": ["vel[0]"], "vely": ["vel[1]"],
+              "velz": ["vel[2]"]}
+AUREL_OF = {"alp": "alpha", "rho": "rho0", "vel[0]": "velx", "vel[1]": "vely", "vel[2]": "velz"}
 
 
 def run_chunks(M, ghosts, cutopts, family, orders, simulate=None, seed=None):
@@ -141,6 +142,8 @@ DEFAULT_REQUESTS = [
     {"it": [8], "vars": ["alpha"], "rl": 0, "restart": 0},
     {"it": [8, 12], "vars": ["betaz"], "rl": 0, "restart": 1},
     {"it": [0, 4, 8, 12, 16, 20, 24], "vars": ["betaup3"], "rl": 0, "restart": -1},
+    {"it": [12, 4], "vars": ["velup3"], "rl": 0, "restart": -1},
+    {"it": [8], "vars": ["vely", "alpha"], "rl": 0, "restart": -1},
 ]
 
 
@@ -188,7 +191,7 @@ def check_sim(job):
         name = "run_a" if seq % 2 else "bbh"
         restarts = [dict(r) for r in st["restarts"]]
         G.make_sim(tmp + "/", name, restarts, M=M, ghost=SIM_GHOSTS[seq % len(SIM_GHOSTS)], chunks=chunks, layout=layout, nlev=st["nlev"],
-                   active_link=(seq % 2 == 0))
+                   active_link=(seq % 2 == 0), variables=G.VARS_VEL)
         param = sim_param(tmp, name)
         for nrd, rd in enumerate(st["reads"]):
             q, res = rd["q"], rd["res"]
@@ -217,7 +220,7 @@ def check_sim(job):
                                  f"read_data(it={q['it']}, ...) returned it={[int(i) for i in d['it']]}, expected {res['it']} on restarts {restarts}",
                                  {"state": st, "query": q}))
                 continue
-            want_vars = q["vars"] or ["alpha", "betaup3"]
+            want_vars = q["vars"] or ["alpha", "betaup3", "velup3"]
             comps = [c for v in want_vars for c in COMPONENTS[v]]
             keys = {AUREL_OF.get(c, c) for c in comps}
             if not keys <= set(d.keys()) - {"it", "t"}:    # extra columns (the rest of a file group) are not an error
@@ -239,7 +242,7 @@ def check_sim(job):
                             for r2 in range(len(restarts)):
                                 for rl2 in range(st["nlev"]):
                                     for i2 in range(0, 40):
-                                        for c2 in G.VARS_DEFAULT:
+                                        for c2 in G.VARS_VEL:
                                             if np.array_equal(a, G.truth(c2, r2, i2, rl2, M)):
                                                 src = (c2, r2, i2, rl2)
                         bad = (f"{AUREL_OF.get(c, c)} at it={i}, rl={q['rl']} should come from restart {r}; "
@@ -459,6 +462,13 @@ def _seq(x):
     return list(x)
 
 
+def _by_level(x, levels):
+    """A TLA+ function over the written levels (JSON object keyed by level, or array when the levels are 0 .. n-1)."""
+    if isinstance(x, dict):
+        return {int(k): v for k, v in x.items()}
+    return dict(zip(sorted(levels), x))
+
+
 def expand(segments):
     out = set()
     for s in segments:
@@ -478,9 +488,9 @@ def check_catalogue(job):
     layout = tuple(st["layout"])
     name = st["name"]
     nlev = st["nlev"]
-    chunks = TWO_CHUNKS[1]((3, 4, 3)) if layout[0] == "proc" else None
-    if chunks:
-        M = (3, 4, 3)
+    # two components on level 0; in odd restarts the finer levels have a single component (Carpet splits every level on its own)
+    chunks = TWO_CHUNKS[1]((3, 4, 3))
+    M = (3, 4, 3)
     restarts = _seq(st["restarts"])
     scans = _seq(st["scan"])
     tmp = tempfile.mkdtemp(prefix="vcat_")
@@ -489,7 +499,7 @@ def check_catalogue(job):
     def add_restart(k):
         r = restarts[k]
         # gen_et writes multiples of `every` in lo..hi for every level with the same stride; levels differ here:
-        G_make(tmp, name, k, r, M, chunks, layout, nlev)
+        G_make(tmp, name, k, r, M, chunks, layout, nlev, levels=sorted(st.get("levels", range(nlev))))
         if seq % 2 == 0:
             # simfactory keeps a link "output-NNNN-active" to the restart that is running: it is not a restart
             for old in glob.glob(os.path.join(tmp, name, "output-*-active")):
@@ -558,7 +568,8 @@ def check_catalogue(job):
                     g = got[r]
                     if g.get("its available") != list(sc["its"]):
                         bad = f"restart {r}: 'its available' = {g.get('its available')}, on disk {list(sc['its'])}"
-                    for l, want in enumerate(_seq(sc["rl"])):
+                    levels = sorted(st.get("levels", range(nlev)))
+                    for l, want in _by_level(sc["rl"], levels).items():
                         if g.get(f"rl = {l}") != list(want):
                             bad = f"restart {r}: 'rl = {l}' = {g.get(f'rl = {l}')}, on disk {list(want)}"
                     if sorted(g.get("checkpoints", [])) != sorted(sc["chk"]):
@@ -574,7 +585,7 @@ def check_catalogue(job):
                 if h["op"] == "iterations":
                     allits = _seq(st["allits"]) if n == len(st["hist"]) else None
                     if allits is not None and overall is not None:
-                        for l, want in enumerate(allits):
+                        for l, want in _by_level(st["allits"], sorted(st.get("levels", range(nlev)))).items():
                             segs = overall.get(f"rl = {l}", [])
                             if expand(segs) != set(want):
                                 findings.append(({"clause": "OverallIsUnion", **sig0},
@@ -656,7 +667,7 @@ def check_catalogue(job):
     return findings
 
 
-def G_make(tmp, name, k, r, M, chunks, layout, nlev):
+def G_make(tmp, name, k, r, M, chunks, layout, nlev, levels=None):
     """Write restart number k with level-dependent strides (level 0: every0, level 1: every1)."""
     import h5py
     d = os.path.join(tmp, name, f"output-{k:04d}", name)
@@ -667,19 +678,20 @@ def G_make(tmp, name, k, r, M, chunks, layout, nlev):
     handles = {}
     for var in G.VARS_DEFAULT + extra_vars(k):
         thorn, group = G.GROUPS[var]
-        for rl in range(nlev):
+        for rl in (levels if levels is not None else range(nlev)):
             every = r["every0"] if rl == 0 else r["every1"]
             for it in range(r["lo"], r["hi"] + 1):
                 if it % every:
                     continue
                 E = G.extended(var, k, it, rl, M, 1)
-                for ch in chunks:
+                lev_chunks = chunks if (rl == 0 or k % 2 == 0) else G.one_chunk(M)
+                for ch in lev_chunks:
                     base = group if layout[1] == "grouped" else var
                     fn = os.path.join(d, base + (f".file_{ch['c']}" if layout[0] == "proc" else "") + ".h5")
                     if fn not in handles:
                         handles[fn] = h5py.File(fn, "w")
                         handles[fn].create_group("Parameters and Global Attributes")
-                    key = f"{thorn}::{var} it={it} tl=0 rl={rl}" + (f" c={ch['c']}" if len(chunks) > 1 else "")
+                    key = f"{thorn}::{var} it={it} tl=0 rl={rl}" + (f" c={ch['c']}" if (len(lev_chunks) > 1 or layout[0] == "proc") else "")
                     ds = handles[fn].create_dataset(key, data=G.piece(E, ch, 1))
                     ds.attrs["cctk_nghostzones"] = np.array([1, 1, 1], dtype=np.int32)
                     ds.attrs["iorigin"] = np.array([ch["x"][0], ch["y"][0], ch["z"][0]], dtype=np.int32)
